@@ -73,6 +73,18 @@ def get(name):
         cand = [ii for ii, it in enumerate(at["I"]) if it["L"] is not None and it["R"] is not None and it["phi"] == 0.0
                 and len(jc[it["a"]]) >= 3 and len(jc[it["b"]]) >= 3]
         return T.add_lens(at, cand[int(m.group(2)) % len(cand)], 0.8)
+    m = re.fullmatch(r"hex(\d+)x(\d+)\+loose", name)
+    if m:
+        # a hexagonal patch plus ONE detached cell (no vertex shared with the patch): a small hexagon whose nearest corner lies a quarter
+        # of a cell side away from the border junction with the largest x
+        polys = T.hex_polys(int(m.group(1)), int(m.group(2)))
+        at0 = T.polygons_at(polys)
+        deg = T.junction_degree(at0)
+        jx, jy = max((tuple(at0["J"][j]) for j in at0["J"] if deg[j] >= 3), key=lambda p: (p[0], p[1]))
+        r = 0.45
+        cx, cy = jx + 0.25 + r, jy
+        loose = [(cx + r * math.cos(math.pi + i * math.pi / 3), cy + r * math.sin(math.pi + i * math.pi / 3)) for i in range(6)]
+        return T.polygons_at(polys + [loose])
     m = re.fullmatch(r"fan(\d+)", name)
     if m:
         return T.polygons_at(T.fan_polys(int(m.group(1))))
